@@ -81,7 +81,113 @@ fn polyline(rng: &mut Rng, n: usize, span: f64, grid: bool) -> LineString<f64> {
     )
 }
 
+/// An input that a caller could pass by mistake: the family's ordinary input with one kind of
+/// damage.  Used only as the *earlier call* of a history ("@bad" prefix): the call under test may
+/// legitimately fail or panic on it, and what it leaves behind on the thread must not change the
+/// next result.  Family syntax: `bad<kind>:<family>`.
+pub fn corrupted(i: &Input, kind: u8, seed: u64) -> Input {
+    let mut rng = Rng::stream(seed, "c20-corrupt");
+    let mut o = i.clone();
+    let damage_mp = |m: &MultiPolygon<f64>, rng: &mut Rng| -> MultiPolygon<f64> {
+        MultiPolygon::new(
+            m.0.iter()
+                .enumerate()
+                .map(|(k, p)| {
+                    let ext = p.exterior().clone();
+                    let mut ints: Vec<LineString<f64>> = p.interiors().to_vec();
+                    let e0 = ext.0.first().copied().unwrap_or(Coord { x: 0.0, y: 0.0 });
+                    let e1 = ext.0.get(1).copied().unwrap_or(Coord { x: 1.0, y: 0.0 });
+                    match kind {
+                        // a hole ring of fewer than four coordinates (two distinct points, closed by the constructor)
+                        0 => {
+                            ints.push(LineString::new(vec![Coord { x: (e0.x + e1.x) / 2.0, y: (e0.y + e1.y) / 2.0 + 0.25 }, Coord { x: (e0.x + e1.x) / 2.0 + 0.25, y: (e0.y + e1.y) / 2.0 + 0.5 }]));
+                            Polygon::new(ext, ints)
+                        }
+                        // an empty hole before the others / an empty exterior with holes kept
+                        1 => {
+                            ints.insert(0, LineString::new(vec![]));
+                            if k % 2 == 1 {
+                                Polygon::new(LineString::new(vec![]), ints)
+                            } else {
+                                Polygon::new(ext, ints)
+                            }
+                        }
+                        // a not-a-number coordinate in the middle of the exterior
+                        2 => {
+                            let mut e = ext.0.clone();
+                            if e.len() > 2 {
+                                let at = 1 + rng.below(e.len() - 2);
+                                e[at].x = f64::NAN;
+                            }
+                            Polygon::new(LineString::new(e), ints)
+                        }
+                        // a bow-tie: two neighbouring vertices swapped
+                        3 => {
+                            let mut e = ext.0.clone();
+                            if e.len() > 4 {
+                                let at = 1 + rng.below(e.len() - 3);
+                                e.swap(at, at + 1);
+                            }
+                            Polygon::new(LineString::new(e), ints)
+                        }
+                        // every coordinate the same point / a spike
+                        4 => Polygon::new(LineString::new(vec![e0; ext.0.len().max(4)]), ints),
+                        // an infinite coordinate
+                        _ => {
+                            let mut e = ext.0.clone();
+                            if e.len() > 2 {
+                                e[1].y = f64::INFINITY;
+                            }
+                            Polygon::new(LineString::new(e), ints)
+                        }
+                    }
+                })
+                .collect(),
+        )
+    };
+    o.a = damage_mp(&i.a, &mut rng);
+    o.b = damage_mp(&i.b, &mut rng);
+    match kind {
+        2 | 5 => {
+            if let Some(l) = o.lines.get_mut(0) {
+                l.end.x = if kind == 2 { f64::NAN } else { f64::INFINITY };
+            }
+            if let Some(p) = o.pts.0.get_mut(0) {
+                *p = Point::new(if kind == 2 { f64::NAN } else { f64::NEG_INFINITY }, p.y());
+            }
+            if let Some(l) = o.mls.0.get_mut(0) {
+                if let Some(c) = l.0.get_mut(0) {
+                    c.y = f64::NAN;
+                }
+            }
+        }
+        4 => {
+            let p0 = o.pts.0.first().copied().unwrap_or(Point::new(0.0, 0.0));
+            o.pts = MultiPoint::new(vec![p0; o.pts.0.len()]);
+            o.lines = o.lines.iter().map(|l| Line::new(l.start, l.start)).collect();
+            o.mls = MultiLineString::new(o.mls.0.iter().map(|l| LineString::new(vec![l.0.first().copied().unwrap_or(Coord { x: 0.0, y: 0.0 }); l.0.len()])).collect());
+        }
+        1 => {
+            o.mls.0.insert(0, LineString::new(vec![]));
+            o.pts = MultiPoint::new(vec![]);
+        }
+        0 => {
+            o.mls.0.push(LineString::new(vec![Coord { x: 0.5, y: 0.5 }]));
+            o.lines.truncate(1);
+        }
+        _ => {}
+    }
+    o.a_valid = false;
+    o
+}
+
 pub fn build(spec: &InputSpec) -> Input {
+    if let Some(rest) = spec.family.strip_prefix("bad") {
+        if let Some((k, fam)) = rest.split_once(':') {
+            let base = build(&InputSpec { family: fam.to_string(), size: spec.size, seed: spec.seed });
+            return corrupted(&base, k.parse().unwrap_or(0), spec.seed);
+        }
+    }
     let mut rng = Rng::stream(spec.seed, "c20-input");
     let n = spec.size.max(1);
     let mut a_valid = false;
